@@ -1,6 +1,7 @@
 //! unit: u18i
 //! properties: C18
-//! note: BOLT-11 expiry field (lightning-invoice ExpiryTime, all four functions whole): the field carries whole seconds only, so an expiry built from a Duration DROPS the sub-second part when it is built - not when it is encoded - and the invoice the builder hands back shows the same expiry (expiry_time, expires_at, would_expire, equality) as the one parsed from its string: from_duration(d) is from_seconds(d's whole seconds), from_seconds(s) has no sub-second part, and as_seconds is what the encoder writes
+//! note: (and the parsers of the two integer fields, expiry and final CLTV delta, whole: the big-endian base-32 number of the field's symbols, refused when it does not fit 64 bits) BOLT-11 expiry field (lightning-invoice ExpiryTime, all four functions whole): the field carries whole seconds only, so an expiry built from a Duration DROPS the sub-second part when it is built - not when it is encoded - and the invoice the builder hands back shows the same expiry (expiry_time, expires_at, would_expire, equality) as the one parsed from its string: from_duration(d) is from_seconds(d's whole seconds), from_seconds(s) has no sub-second part, and as_seconds is what the encoder writes
+//! trusted: parse_u64_be (a macro-generated fold over checked_mul / checked_add) is an external_body stub with its meaning (the big-endian base-32 value, None exactly when it exceeds u64); R8: `OPTION.map(ExpiryTime::from_seconds)` is written as a match
 //! trusted: R5: core::time::Duration is a skeleton {secs, nanos} with from_secs (nanos = 0) and as_secs with the std meaning
 //! trusted: assume_specification for core::cmp::max / core::cmp::min (std definitions): present in every unit so that a change that introduces them is verified instead of being rejected by the tool
 use vstd::prelude::*;
@@ -41,6 +42,32 @@ impl ExpiryTime {
 //@ret r
 //@ensures A
     *r == self.0
+//@end
+}
+// the two integer fields (expiry `x`, final CLTV delta `c`): big-endian base 32 of however many symbols the field has; a value that does not fit 64 bits refuses the invoice
+pub struct Fe32(pub u8);
+pub enum Bolt11ParseError { IntegerOverflowError, Other(u8) }
+pub uninterp spec fn be32(f: Seq<Fe32>) -> nat;
+#[verifier::external_body] pub fn parse_u64_be(digits: &[Fe32]) -> (r: Option<u64>) ensures (r is Some) == (be32(digits@) <= u64::MAX), r is Some ==> r->Some_0 as nat == be32(digits@) { unimplemented!() }
+impl ExpiryTime {
+//@extract lightning-invoice/src/de.rs :: impl FromBase32 for ExpiryTime :: fn from_base32
+//@rw R8
+    parse_u64_be(field_data).map(ExpiryTime::from_seconds)
+//@with
+    (match parse_u64_be(field_data) { Some(__s) => Some(ExpiryTime::from_seconds(__s)), None => None })
+//@ret r
+//@ensures P C18 the-expiry-field-is-the-big-endian-base-32-number-of-its-symbols-in-whole-seconds-and-an-overflowing-one-is-refused
+    (r is Ok) == (be32(field_data@) <= u64::MAX),
+    r is Ok ==> r->Ok_0.0.secs as nat == be32(field_data@) && r->Ok_0.0.nanos == 0,
+//@end
+}
+pub struct MinFinalCltvExpiryDelta(pub u64);
+impl MinFinalCltvExpiryDelta {
+//@extract lightning-invoice/src/de.rs :: impl FromBase32 for MinFinalCltvExpiryDelta :: fn from_base32
+//@ret r
+//@ensures P C18 the-final-cltv-delta-field-is-the-big-endian-base-32-number-of-its-symbols-and-an-overflowing-one-is-refused
+    (r is Ok) == (be32(field_data@) <= u64::MAX),
+    r is Ok ==> r->Ok_0.0 as nat == be32(field_data@),
 //@end
 }
 }
